@@ -149,6 +149,7 @@ class Transaction:
         :returns: An immutable node, or ``None`` if *name* does not exist.
         :rtype: :py:class:`dns.node.ImmutableNode` or ``None``
         """
+        self._check_ended()
         return _ensure_immutable_node(self._get_node(name))
 
     def _check_read_only(self) -> None:
